@@ -60,6 +60,17 @@ def sigilOf (c : Char) : Option Nat :=
 def isSign (c : Char) : Bool := c == '+' || c == '-'
 def isDec (c : Char) : Bool := decide ('0' ≤ c ∧ c ≤ '9')
 
+def headIsSign (s : List Char) : Bool :=
+  match s with
+  | c :: _ => isSign c
+  | [] => false
+
+/-- `len(s) > 1 && s[0] == '0' && s[1] is a decimal digit && s is not all zeros` -/
+def badLeadingZeros (s : List Char) : Bool :=
+  match s with
+  | '0' :: c1 :: _ => isDec c1 && !(s.all (· == '0'))
+  | _ => false
+
 /-- the "leading sigils" block: (convertBase, remaining text); `none` = `goto error` -/
 def stripSigil (base : Nat) (s : List Char) : Option (Nat × List Char) :=
   match s with
@@ -81,13 +92,11 @@ def intFromString (str : List Char) (base : Nat) : Option Obj :=
   | none => none
   | some (cb, s) =>
     -- base 0 without sigil: decimal; leading zeros are illegal unless the literal is all zeros
-    let bad0 := cb == 0 && (match s with
-      | '0' :: c1 :: _ => isDec c1 && !(s.all (· == '0'))
-      | _ => false)
+    let bad0 := cb == 0 && badLeadingZeros s
     let convertBase := if cb == 0 then 10 else cb
     if bad0 then none else
     -- the sign was handled above; ParseInt/SetString would accept another one
-    if (match s with | c :: _ => isSign c | [] => false) then none else
+    if headIsSign s then none else
     -- the int64 fast path and the big path compute the same value; only the
     -- representation of the result differs (MaybeInt canonicalises)
     match goParseSigned convertBase s with
@@ -103,17 +112,9 @@ def intFromString (str : List Char) (base : Nat) : Option Obj :=
 base is 0 or matches), one or more digits of the base; base 0 ⇒ decimal literals must
 not have leading zeros unless the value is zero. -/
 def specIntFromString (str : List Char) (base : Nat) : Option Int :=
-  let s := trimSpace str
-  let (neg, s) : Bool × List Char := match s with
-    | '+' :: r => (false, r)
-    | '-' :: r => (true, r)
-    | _ => (false, s)
+  let (neg, s) := stripSign (trimSpace str)
   let pref : Option (Nat × List Char) := match s with
-    | '0' :: c :: r =>
-      if c == 'x' || c == 'X' then some (16, r)
-      else if c == 'o' || c == 'O' then some (8, r)
-      else if c == 'b' || c == 'B' then some (2, r)
-      else none
+    | '0' :: c :: r => (sigilOf c).map (fun pb => (pb, r))
     | _ => none
   let (b, digits) : Nat × List Char :=
     match pref with
